@@ -265,6 +265,9 @@ fn viol14(ctx: &mut Ctx, n: usize, op: IoOp, what: &str, detail: String) {
     let name = format!("{:?}", op);
     let name = name.split('(').next().unwrap().to_string();
     ctx.violation("C14", format!("io={}|ncap={}|{}", name, crate::engine::ncls(n), what), format!("{}; case={}", detail, c));
+    if what == "panic" {
+        ctx.violation("C11", format!("io={}|ncap={}|unexpected_panic", name, crate::engine::ncls(n)), format!("{}; case={}", detail, c));
+    }
 }
 
 /// apply one op through std::io, judge against the model, update the model
@@ -389,6 +392,7 @@ fn twin_apis() -> Vec<Api> {
 }
 
 pub fn io<const N: usize>(ctx: &mut Ctx) {
+    ctx.panic_props = vec!["C14", "C11"];
     let depth = ctx.args.num("depth", 3) as usize;
     let thorough = ctx.args.thorough;
     let starts = if N == 0 { 1 } else { N };
